@@ -91,6 +91,22 @@ def fingerprint(fn):
     g.name = "_"
     if g.body and isinstance(g.body[0], ast.Expr) and isinstance(g.body[0].value, ast.Constant) and isinstance(g.body[0].value.value, str):
         g.body = g.body[1:] or [ast.Pass()]
+    # parameters and local variables are named by order of first occurrence (a rename of `framenum` to `frame_number`
+    # together with the routine's own name is still the same routine)
+    declared = {nm for n in ast.walk(g) if isinstance(n, (ast.Global, ast.Nonlocal)) for nm in n.names}
+    local = {}
+    for n in ast.walk(g):
+        nm = n.arg if isinstance(n, ast.arg) else n.id if isinstance(n, ast.Name) and isinstance(n.ctx, (ast.Store, ast.Del)) else \
+            n.name if isinstance(n, ast.ExceptHandler) and n.name else None
+        if nm is not None and nm not in declared and nm not in local:
+            local[nm] = f"v{len(local)}"
+    for n in ast.walk(g):
+        if isinstance(n, ast.arg) and n.arg in local:
+            n.arg = local[n.arg]
+        elif isinstance(n, ast.Name) and n.id in local:
+            n.id = local[n.id]
+        elif isinstance(n, ast.ExceptHandler) and n.name in local:
+            n.name = local[n.name]
     for n in ast.walk(g):
         if isinstance(n, ast.Attribute) and _private(n.attr):
             n.attr = "_P"
